@@ -264,6 +264,7 @@ type World struct {
 	lastRun  string
 	finePts  int
 	gnames   map[int]string
+	apiNames map[int]string // goroutine id -> script item of the API call it executes
 	glabels  map[string]int
 
 	baseGor     int
